@@ -20,16 +20,21 @@ NoCase == [pk |-> "init", pi |-> 0, b |-> 0]
 WordRows == {j \in PrefIdx : \A k \in PrefIdx : PrefSeq[k].w = PrefSeq[j].w => k >= j}
 CoreB == {b \in NameIdx : NameSeq[b].core}
 GenB == {b \in NameIdx : NameSeq[b].gen}
+\* the domain is cut into slices so that independent TLC runs can enumerate it concurrently:
+\*   "names"                 : every base string, no prefix part
+\*   "sym" / "word" / "title": prefix symbol / word / Title word  x  core spellings          ("core" = names + these three)
+\*   "wsym" / "wword"        : prefix symbol / word  x  the other generated names             ("wide" = core + these two)
+Slice(d) ==
+  CASE d = "names" -> {[pk |-> "none", pi |-> 0, b |-> b] : b \in NameIdx}
+    [] d = "sym"   -> {[pk |-> "sym", pi |-> j, b |-> b] : j \in PrefIdx, b \in CoreB}
+    [] d = "word"  -> {[pk |-> "word", pi |-> j, b |-> b] : j \in WordRows, b \in CoreB}
+    [] d = "title" -> {[pk |-> "title", pi |-> j, b |-> b] : j \in WordRows, b \in CoreB}
+    [] d = "wsym"  -> {[pk |-> "sym", pi |-> j, b |-> b] : j \in PrefIdx, b \in GenB \ CoreB}
+    [] d = "wword" -> {[pk |-> "word", pi |-> j, b |-> b] : j \in WordRows, b \in GenB \ CoreB}
 Cases ==
-  {[pk |-> "none", pi |-> 0, b |-> b] : b \in NameIdx}
-  \cup (IF Domain \in {"core", "wide"}
-        THEN {[pk |-> "sym", pi |-> j, b |-> b] : j \in PrefIdx, b \in CoreB}
-             \cup {[pk |-> k, pi |-> j, b |-> b] : k \in {"word", "title"}, j \in WordRows, b \in CoreB}
-        ELSE {})
-  \cup (IF Domain = "wide"
-        THEN {[pk |-> "sym", pi |-> j, b |-> b] : j \in PrefIdx, b \in GenB \ CoreB}
-             \cup {[pk |-> "word", pi |-> j, b |-> b] : j \in WordRows, b \in GenB \ CoreB}
-        ELSE {})
+  CASE Domain = "core" -> Slice("names") \cup Slice("sym") \cup Slice("word") \cup Slice("title")
+    [] Domain = "wide" -> Slice("names") \cup Slice("sym") \cup Slice("word") \cup Slice("title") \cup Slice("wsym") \cup Slice("wword")
+    [] OTHER -> Slice(Domain)
 
 Init == c = NoCase
 Next == c = NoCase /\ \E k \in Cases : c' = k
